@@ -44,6 +44,7 @@ import (
 	tc "github.com/ontio/ontology/txnpool/common"
 	tp "github.com/ontio/ontology/txnpool/proc"
 	vm "github.com/ontio/ontology/vm/neovm"
+	vmtypes "github.com/ontio/ontology/vm/neovm/types"
 
 	"verifharness/internal/fix"
 	"verifharness/internal/iso"
@@ -227,7 +228,13 @@ func installCounters() {
 	wrapSvc := func(m map[string]neosvc.ServiceHandler) {
 		for name, h := range m {
 			n, hh := name, h
-			m[n] = func(s *neosvc.NeoVmService, e *vm.Executor) error { hit("sys:" + n); return hh(s, e) }
+			m[n] = func(s *neosvc.NeoVmService, e *vm.Executor) error {
+				hit("sys:" + n)
+				if probe.on {
+					probe.sample(e)
+				}
+				return hh(s, e)
+			}
 		}
 	}
 	wrapSvc(neosvc.ServiceMap)
@@ -348,6 +355,8 @@ func serve(in []byte) []byte {
 		switch c.Kind {
 		case "neo":
 			w.doNeo(&c, &rep)
+		case "amp":
+			w.doAmp(&c, &rep)
 		case "native":
 			w.doNative(&c, &rep)
 		case "evm":
@@ -427,6 +436,178 @@ func (w *world) doNeo(c *wcase, rep *wreply) {
 	}
 	w.execBlock([]*types.Transaction{tx}, &rep.Block, nil)
 	w.preExec(tx, &rep.Pre)
+}
+
+// ---------------------------------------------------------------------------------------------
+// amplification programs: metered run first, node routes only when the meter stayed within bounds
+
+// liveItems counts the VM items a program holds: every stack slot, every distinct container
+// (by identity: shared arrays / maps count once) and every slot of such a container. The walk stops
+// as soon as the count exceeds limit.
+func liveItems(e *vm.Executor, limit int) int {
+	seen := map[interface{}]struct{}{}
+	n := 0
+	var walk func(v *vmtypes.VmValue)
+	walk = func(v *vmtypes.VmValue) {
+		n++
+		if n > limit {
+			return
+		}
+		var items []vmtypes.VmValue
+		if s, err := v.AsStructValue(); err == nil {
+			if _, ok := seen[s]; ok {
+				return
+			}
+			seen[s] = struct{}{}
+			items = s.Data
+		} else if a, err := v.AsArrayValue(); err == nil {
+			if _, ok := seen[a]; ok {
+				return
+			}
+			seen[a] = struct{}{}
+			items = a.Data
+		} else if m, err := v.AsMapValue(); err == nil {
+			if _, ok := seen[m]; ok {
+				return
+			}
+			seen[m] = struct{}{}
+			for _, kv := range m.Data { // order is irrelevant for a count
+				k, val := kv[0], kv[1]
+				walk(&k)
+				walk(&val)
+				if n > limit {
+					return
+				}
+			}
+			return
+		}
+		for i := range items {
+			walk(&items[i])
+			if n > limit {
+				return
+			}
+		}
+	}
+	for _, st := range []*vm.ValueStack{e.EvalStack, e.AltStack} {
+		for i := 0; i < st.Count() && n <= limit; i++ {
+			v, err := st.Peek(int64(i))
+			if err != nil {
+				break
+			}
+			walk(&v)
+		}
+	}
+	return n
+}
+
+const ampStepCap = 20000
+
+// probe counts the live items of the node's own executor (the one inside NeoVmService.Invoke, reached
+// through ExecuteBlock / PreExecuteContract) on entry to every service handler.
+type probeState struct {
+	on          bool
+	limit       int
+	first, peak int
+}
+
+var probe probeState
+
+func probeStart(limit int) { probe = probeState{on: true, limit: limit, first: -1} }
+
+func probeStop() (first, peak int) { probe.on = false; return probe.first, probe.peak }
+
+func (p *probeState) sample(e *vm.Executor) {
+	n := liveItems(e, p.limit)
+	if p.first < 0 {
+		p.first = n
+	}
+	if n > p.peak {
+		p.peak = n
+	}
+}
+
+// meterAmp executes the program on a bare executor exactly as NeoVmService.Invoke drives it (same
+// feature flags, one ExecuteOp per opcode) up to its first service call, and counts the live VM
+// items after every opcode that can allocate container slots. Unless keepGoing, it stops at the
+// first count above ampBound(ops): what follows would only multiply the memory further.
+func (w *world) meterAmp(code []byte, keepGoing bool) *ampRes {
+	m := &ampRes{End: "end", BlockFirst: -1, PreFirst: -1}
+	e := vm.NewExecutor(code, smartcontract.NewVmFeatureFlag(w.ch.LS.GetCurrentBlockHeight()+1))
+	sample := func() bool {
+		b := ampBound(m.Ops)
+		limit := b
+		if keepGoing {
+			limit = 4 * b
+		}
+		if n := liveItems(e, limit); n > m.Peak {
+			m.Peak, m.PeakAt, m.Bound = n, m.Ops, b
+			if n > b {
+				m.Over = true
+				if !keepGoing {
+					m.End = "over"
+					return false
+				}
+			}
+		}
+		return true
+	}
+	for {
+		if e.Context == nil || e.Context.GetInstructionPointer() >= len(e.Context.Code) {
+			break
+		}
+		if m.Ops >= ampStepCap {
+			m.End = "stepcap"
+			break
+		}
+		op, eof := e.Context.ReadOpCode()
+		if eof {
+			break
+		}
+		if op == vm.SYSCALL || op == vm.APPCALL || op == vm.TAILCALL {
+			m.End = "syscall"
+			break
+		}
+		m.Ops++
+		state, err := e.ExecuteOp(op, e.Context)
+		if err != nil || state == vm.FAULT {
+			m.End = "fault:" + errStr(err)
+			break
+		}
+		switch op {
+		case vm.APPEND, vm.SETITEM, vm.PACK, vm.UNPACK, vm.NEWARRAY, vm.NEWSTRUCT, vm.NEWMAP, vm.KEYS, vm.VALUES:
+			if !sample() {
+				return m
+			}
+		}
+	}
+	sample()
+	m.Final = liveItems(e, 4*ampBound(m.Ops))
+	return m
+}
+
+func (w *world) doAmp(c *wcase, rep *wreply) {
+	var pr pathRes
+	guard(&pr, func() { rep.Amp = w.meterAmp(c.Code, c.Probe) })
+	if rep.Amp == nil { // a panic of the bare executor shows on the node routes as well (same ExecuteOp)
+		w.doNeo(c, rep)
+		return
+	}
+	m := rep.Amp
+	if m.Over && !c.Probe {
+		return
+	}
+	tx, err := w.neoTx(c.Code, c.GasPrice, c.GasLimit, c.Signers, 7)
+	if err != nil {
+		rep.Block.Err = "tx-unbuildable: " + errStr(err)
+		return
+	}
+	limit := 4 * ampBound(m.Ops)
+	probeStart(limit)
+	w.execBlock([]*types.Transaction{tx}, &rep.Block, nil)
+	m.BlockFirst, m.BlockPeak = probeStop()
+	probeStart(limit)
+	w.preExec(tx, &rep.Pre)
+	m.PreFirst, m.PrePeak = probeStop()
 }
 
 // ---------------------------------------------------------------------------------------------
